@@ -8,7 +8,7 @@ for n in $names; do
   prop=$(python3 -c "import json;print(json.load(open('$d/meta.json'))['property'])")
   if [ -n "$(git -C /repo status --porcelain --untracked-files=no)" ]; then echo "/repo not clean"; exit 2; fi
   git -C /repo apply $PWD/$d/patch.diff || { echo "$n: patch does not apply"; continue; }
-  out=$(./check $prop 2>&1); rc=$?
+  out=$(NSQVC_EVIDENCE_DIR=/verif/out/selftest_evidence ./check $prop 2>&1); rc=$?   # evidence of the broken tree goes to a scratch dir
   git -C /repo checkout -- .
   if [ $rc -eq 1 ] && echo "$out" | grep -q '^VIOLATION'; then
     echo "$n ($prop): DETECTED  $(echo "$out" | grep -c '^VIOLATION') violation line(s); first: $(echo "$out" | grep -m1 FAILED | cut -c1-160)"
